@@ -18,10 +18,10 @@ VARIABLES hist, done
 ClassesCleanup == <<"write", "write", "write", "store", "read", "read", "delete", "expireall",
                     "tick", "tick", "tick", "tick", "cleanup", "cleanup", "cleanup", "len", "walk">>   \* walk: also a Walk whose callback fails
 ClassesEvict   == <<"write", "write", "write", "write", "write", "store", "read", "read", "read", "read",
-                    "load", "delete", "tick", "tick", "cleanup", "cleanup", "cleanup", "expireall">>
+                    "load", "delete", "tick", "tick", "cleanup", "cleanup", "cleanup", "expireall", "relayself", "len">>
 
 ClassesRelay   == <<"write", "write", "write", "write", "store", "read", "read", "delete", "expireall",
-                    "tick", "tick", "relay", "relay", "relay", "cleanup", "len">>
+                    "tick", "tick", "relay", "relay", "relay", "relayself", "cleanup", "len">>
 
 Classes == <<"write", "write", "write", "write", "store",
              "read", "read", "read", "read", "load",
@@ -42,6 +42,7 @@ Step(cls) ==
     [] cls = "walk"      -> Walk \/ WalkStop
     [] cls = "tick"      -> Tick
     [] cls = "relay"     -> Relay
+    [] cls = "relayself" -> RelaySelf
     [] cls = "cleanup"   -> \E b \in BOOLEAN : Cleanup(b)
 
 GenInit == Init /\ hist = <<>> /\ done = FALSE
